@@ -102,6 +102,8 @@ func (d *Decoder) decodeSlice(pkt *rtp.Packet) ([]byte, error) {
 
 	switch {
 	case b == 1 && e == 1:
+		// a complete slice supersedes any fragmented slice that was never ended
+		d.resetFragments()
 		return pkt.Payload[4:], nil
 
 	case b == 1:
